@@ -5,7 +5,7 @@
    the framing model; the correspondence runs decide them for the implementation. *)
 From Coq Require Import List Arith ZArith.
 Import ListNotations.
-From SedV Require Import Xnum Keep Loop History Frame Reader StreamM.
+From SedV Require Import Xnum Keep Loop History Frame Reader StreamM LoopProofs.
 
 (* one record per source parsed before the first end-of-input line whose n_data reaches n_data_min, in input order,
    each produced by the same processing as the object interface; a rejected line propagates its error *)
@@ -40,6 +40,35 @@ Theorem C10_aliasing_refuted :
   fst (run_alias nat nat nkeepN [[10; 20; 30]] [1; 3]) <> run_file nat nat nkeepN [[10; 20; 30]] [1; 3]
   /\ snd (run_alias nat nat nkeepN [[10; 20; 30]] [1; 3]) <> [[10; 20; 30]].
 Proof. exact History.C10_history_refuted. Qed.
+
+(* never more records than lines read *)
+Theorem C10_count : forall (line source record : Type) (parse : line -> parsed source) (n_data : source -> nat)
+  (process : source -> record) nmin lines recs,
+  fit_file line source record parse n_data process nmin lines = Some recs -> length recs <= length lines.
+Proof. exact fit_file_count. Qed.
+
+(* whatever follows the first end-of-input line is never looked at *)
+Theorem C10_after_eof : forall (line source record : Type) (parse : line -> parsed source) (n_data : source -> nat)
+  (process : source -> record) nmin pre l post post', parse l = PEof source ->
+  fit_file line source record parse n_data process nmin (pre ++ l :: post) =
+  fit_file line source record parse n_data process nmin (pre ++ l :: post').
+Proof. exact fit_file_after_eof. Qed.
+
+(* sources are processed one by one: the records of a file are those of a leading block of sources followed by those of the
+   rest; a source's record does not depend on which sources surround it *)
+Theorem C10_compositional : forall (line source record : Type) (parse : line -> parsed source) (n_data : source -> nat)
+  (process : source -> record) nmin pre rest, Forall (fun l => exists s, parse l = PSource source s) pre ->
+  fit_file line source record parse n_data process nmin (pre ++ rest) =
+  match fit_file line source record parse n_data process nmin pre, fit_file line source record parse n_data process nmin rest with
+  | Some a, Some b => Some (a ++ b) | _, _ => None end.
+Proof. exact fit_file_app. Qed.
+
+(* a rejected line before the end of input makes the call fail: no record list is returned, whatever surrounds the line *)
+Theorem C10_rejected_line : forall (line source record : Type) (parse : line -> parsed source) (n_data : source -> nat)
+  (process : source -> record) nmin pre l post, Forall (fun l => exists s, parse l = PSource source s) pre ->
+  parse l = PError source ->
+  fit_file line source record parse n_data process nmin (pre ++ l :: post) = None.
+Proof. exact fit_file_error. Qed.
 
 Example C10_example :
   fit_file_m 2 [LSource 3 10; LSource 1 11; LSource 2 12; LEof; LSource 5 13] = Some [10; 12]%Z.
